@@ -57,6 +57,12 @@ def _rel_guard(expr, qnames, sizeexprs):
   cl, cs, cc = l[0] - r[0], l[1] - r[1], l[2] - r[2]
   # cl*len + cs*size + cc  op  0
   op = type(expr.ops[0])
+  if cl == 0 and cs in (1, -1):
+    # a test of the capacity alone: size op c  (decided below under the documented assumption size >= 1)
+    flip = {ast.Lt: ast.Gt, ast.LtE: ast.GtE, ast.Gt: ast.Lt, ast.GtE: ast.LtE, ast.Eq: ast.Eq, ast.NotEq: ast.NotEq}
+    if op not in flip:
+      return None
+    return ('size-only', op if cs == 1 else flip[op], -cc if cs == 1 else cc)
   if (cl, cs) == (1, -1):
     return (op, -cc)
   if (cl, cs) == (-1, 1):
@@ -124,6 +130,7 @@ def check_push(repo, rep):
       word = []
       feasible = True
       unknown = None
+      other_guards = []     # guards that are not about the fill level: both outcomes are followed
       raised = path[-1][0] is g.raise_exit
       for i, (n, lab) in enumerate(path):
         nxt = path[i + 1][1] if i + 1 < len(path) else None
@@ -131,9 +138,18 @@ def check_push(repo, rep):
           # resolve aliases of the queue inside the guard
           e, _ = rd.expand(n, n.expr)
           r = _rel_guard(e, {qcanon}, sizeexprs)
+          if r is not None and r[0] == 'size-only':
+            # capacity >= 1 is assumed: `size <= 0` is never true, `size >= 1` always; anything else is left open
+            outcomes = {_eval_rel(r[1], sz, r[2]) for sz in range(1, 64)}
+            if len(outcomes) == 1:
+              if (nxt == 'true') != outcomes.pop():
+                feasible = False
+                break
+              continue
+            r = None
           if r is None:
-            unknown = 'guard `%s` is not a comparison of len(queue) with the size' % norm(n.expr)
-            break
+            other_guards.append(('' if nxt == 'true' else 'not ') + norm(e)[:80])
+            continue
           v = _eval_rel(r[0], d, r[1])
           if (nxt == 'true') != v:
             feasible = False
@@ -169,15 +185,21 @@ def check_push(repo, rep):
       if unknown:
         rep.undecided('R1/top-k', 'path of push (%s)' % case, unknown, f.loc())
         continue
-      results.setdefault(case, set()).add((tuple(word), raised, d0))
+      results.setdefault(case, set()).add((tuple(word), raised, d0, tuple(other_guards)))
   want = {'room': ('ins',), 'full': ('ins', 'delmin')}
   for case in ('room', 'full'):
     words = results.get(case, set())
     if not words:
       rep.undecided('R1/top-k', 'push (%s)' % case, 'no feasible path found', f.loc())
       continue
-    for word, raised, d0 in sorted(words):
+    for word, raised, d0, guards_ in sorted(words):
       okw = (word == want[case]) and not raised
+      if guards_ and not okw:
+        rep.violation('R1/top-k', f.qualname, 'push case %s under %s: %s' % (case, ' and '.join(guards_), ';'.join(word) or 'none'),
+                      'HeapDict.push has a path (taken when %s) on which the net effect on the queue is [%s]%s instead of [%s]: whether a pushed item is kept then depends on '
+                      'something other than its rank among the items pushed — the queue no longer holds the k largest items pushed'
+                      % (' and '.join(guards_), ';'.join(word) or 'none', ' and raises' if raised else '', ';'.join(want[case])), f.loc())
+        continue
       why = {
           'room': 'while fewer than k items are held every pushed item must be kept (net effect ins)',
           'full': 'when k items are held the new item is inserted and the minimum of the result removed (net effect ins;delmin)'}[case]
